@@ -408,6 +408,27 @@ def weave_fn(text, directives, canary=False):
                 add(sh.stmt_end(k1), "\n" + d.body, d)
             else:
                 add(toks[k1].end, " " + d.body + " ", d)
+        elif d.kind == "arm":
+            m = re.match(r"\s*(?:(\d+)\s+)?`(.*)`\s*$", d.arg, re.S)
+            if not m or not m.group(2).rstrip().endswith("=>"):
+                raise Unsupported(f"bad #arm syntax (anchor must end with =>): {d.arg}")
+            nth = int(m.group(1)) if m.group(1) else None
+            k0, k1 = sh.find_anchor(m.group(2), nth)
+            b = _next_code(toks, k1)
+            if toks[b].text == "{":
+                add(toks[b].end, "\n" + d.body + "\n", d)
+            else:
+                e = b
+                while e < len(toks):
+                    tt = toks[e]
+                    if tt.kind == "punct":
+                        if tt.text in OPEN:
+                            e = match_close(toks, e)
+                        elif tt.text in CLOSE or tt.text == ",":
+                            break
+                    e += 1
+                add(toks[b].start, "{\n" + d.body + "\n", d)
+                add(toks[_prev_code(toks, e)].end, " }", d, order=-1)
         elif d.kind == "body-start":
             add(toks[sh.body_open].end, "\n" + d.body + "\n", d, order=2)
         elif d.kind == "body-end":
